@@ -13,7 +13,7 @@ import (
 	"github.com/dolthub/dolt/go/zzverif/vsql"
 )
 
-const c30Rule = "twin tables in one database receive the identical generated history on two branches: t_fast (keyed, every value column nullable, no index, no check: eligible for the chunk-level merge in computeProllyTreePatches), t_slow (same plus a non-unique secondary index on a value column) and t_chk (same plus a tautological CHECK), the latter two forced onto the row-by-row three-way differ. Histories are C29's (INSERT/REPLACE/UPDATE/DELETE over shared keys, no schema change); in about a third of the cases the base has 1200-3200 rows and both branches also run wide statements (ranged computed/constant UPDATEs, ranged DELETEs, block INSERTs of 100+ rows) so that whole leaf chunks differ and the patch generator emits range patches. After CALL dolt_merge (both directions in part of the cases): rows, dolt_conflicts_<t> rows and dolt_conflicts counts of the three tables must be identical to each other and to the reference merge (vsql.Merge3); index lookups on t_slow must agree with its rows. Non-trivial: both branches changed a run of >= 250 rows with one statement and at least one key was edited differently on both sides; distinct by (schema, base size/salt, both histories)."
+const c30Rule = "twin tables in one database receive the identical generated history on two branches: t_fast (keyed, every value column nullable, no index, no check: eligible for the chunk-level merge in computeProllyTreePatches), t_slow (same plus a non-unique secondary index on a value column) and t_chk (same plus a tautological CHECK), the latter two forced onto the row-by-row three-way differ. Histories are C29's (INSERT/REPLACE/UPDATE/DELETE over shared keys, no schema change); in about a third of the cases the base has 1200-3200 rows and both branches also run wide statements (ranged computed/constant UPDATEs, ranged DELETEs, block INSERTs of 100+ rows) so that whole leaf chunks differ and the patch generator emits range patches. After CALL dolt_merge (both directions in part of the cases): rows, dolt_conflicts_<t> rows and dolt_conflicts counts of the three tables must be identical to each other and to the reference merge (vsql.Merge3); index lookups on t_slow must agree with its rows. In another three eighths of the cases the rows are wide (a 200-500 byte pad column, 300-1500 rows, so the row index of t_fast has 20-150 leaf chunks); the leaf-chunk end keys of t_fast are read in process (srv.Engine -> working set -> row index nodes) and 1-4 adjacent chunk pairs (A, B) are targeted: one branch moves its chunk boundary at the end of A (delete / resize / insert after A's last key) and edits B's last key (update / delete / resize), the other branch edits other rows of B (update / delete / insert) and in half of the targets B's last key as well (collision); both merge directions always run. Non-trivial: both branches changed a run of >= 250 rows with one statement and at least one key was edited differently on both sides, or at least one chunk-boundary target was generated; distinct by (schema, base size/salt, both histories)."
 
 var c30Assumptions = []string{
 	"which path a table takes is inferred from canFastMergeProllyTrees' conditions (read from the code, confirmed by a mutation of the fast path that only t_fast notices), not observed directly",
@@ -36,20 +36,36 @@ func TestVerif_C30(t *testing.T) {
 }
 
 func c30Case(rt *rapid.T, env *mEnv, rec *vh.Recorder) {
-	large := mOneIn(rt, "large.a", 2) || mOneIn(rt, "large.b", 3)
-	sp := mGenSpec(rt, mSpecOpts{allNullable: true, keyMaxLo: 3, keyMaxHi: 16, onePK: large})
-	nBase := 24
-	if large {
-		sp.KeyMax = rapid.IntRange(1200, 3200).Draw(rt, "large.keymax")
-		nBase = sp.KeyMax
+	b1, b2, b3 := rapid.Bool().Draw(rt, "flavour.1"), rapid.Bool().Draw(rt, "flavour.2"), rapid.Bool().Draw(rt, "flavour.3")
+	wideRows := b1 && (b2 || b3) // 3/8: wide rows, edits aimed at leaf-chunk boundaries
+	large := !wideRows && !b1 && b2 // 1/4: large base, wide statements
+	mode := mergeMode(rapid.IntRange(0, 1).Draw(rt, "mode"))
+	twins := []string{"t_fast", "t_slow", "t_chk"}
+
+	var sp mSpec
+	var base *mSide
+	var baseStmts []string
+	var bnd *c30Boundary
+	if wideRows {
+		bnd, base = c30NewBoundary(rt)
+		sp, baseStmts = bnd.sp, bnd.baseSQL
+	} else {
+		sp = mGenSpec(rt, mSpecOpts{allNullable: true, keyMaxLo: 3, keyMaxHi: 16, onePK: large})
+		nBase := 24
+		if large {
+			sp.KeyMax = rapid.IntRange(1200, 3200).Draw(rt, "large.keymax")
+			nBase = sp.KeyMax
+		}
+		base = mNewSide(sp)
+		baseStmts = base.genBaseRows(rt, nBase, sp.KeyMax)
 	}
 	slow := sp
-	slow.Index = sp.Cols[sp.NPK+rapid.IntRange(0, len(sp.Cols)-sp.NPK-1).Draw(rt, "slow.indexcol")].Name
-	twins := []string{"t_fast", "t_slow", "t_chk"}
-	mode := mergeMode(rapid.IntRange(0, 1).Draw(rt, "mode"))
+	if wideRows {
+		slow.Index = "c1"
+	} else {
+		slow.Index = sp.Cols[sp.NPK+rapid.IntRange(0, len(sp.Cols)-sp.NPK-1).Draw(rt, "slow.indexcol")].Name
+	}
 
-	base := mNewSide(sp)
-	baseStmts := base.genBaseRows(rt, nBase, sp.KeyMax)
 	c := env.newCase(rt)
 	defer c.close()
 	se := c.se
@@ -70,16 +86,42 @@ func c30Case(rt *rapid.T, env *mEnv, rec *vh.Recorder) {
 		opo.wide = rapid.IntRange(600, 1400).Draw(rt, "large.wide")
 		hop.maxCommits = 2
 	}
-	ours := base.clone()
-	c.checkoutNew(rt, "b1", "base")
-	mRunHistory(rt, c, "ours", []*mTrack{{side: ours, tables: twins, op: opo, openWide: large}}, hop)
-	theirs := base.clone()
-	opo.hot = ours.touchedKeys()
-	if large && len(opo.hot) > 200 {
-		opo.hot = opo.hot[:200]
+	ours, theirs := base.clone(), base.clone()
+	var oursAimed, theirsAimed []string
+	targets, collisions, leaves, height := 0, 0, 0, 0
+	if wideRows {
+		hop = mHistoryOpts{maxCommits: 1, minOps: 0, maxOps: 3}
+		opo.maxRange = 0
+		ends, h, err := mLeafEnds(env, c.pfx+"base", "t_fast")
+		if err != nil {
+			rt.Logf("leaf boundaries of t_fast unavailable: %v", err)
+		}
+		leaves, height = len(ends), h
+		if rapid.Bool().Draw(rt, "aim.shifter_is_ours") {
+			oursAimed, theirsAimed, targets, collisions = c30AimAtBoundaries(rt, bnd, ends, ours, theirs)
+		} else {
+			theirsAimed, oursAimed, targets, collisions = c30AimAtBoundaries(rt, bnd, ends, theirs, ours)
+		}
 	}
-	opo.other = ours
+	runAimed := func(stmts []string) {
+		for _, st := range stmts {
+			for _, tb := range twins {
+				c.run(rt, mInst(st, tb))
+			}
+		}
+	}
+	c.checkoutNew(rt, "b1", "base")
+	runAimed(oursAimed)
+	mRunHistory(rt, c, "ours", []*mTrack{{side: ours, tables: twins, op: opo, openWide: large}}, hop)
+	if !wideRows {
+		opo.hot = ours.touchedKeys()
+		if large && len(opo.hot) > 200 {
+			opo.hot = opo.hot[:200]
+		}
+		opo.other = ours
+	}
 	c.checkoutNew(rt, "b2", "base")
+	runAimed(theirsAimed)
 	mRunHistory(rt, c, "theirs", []*mTrack{{side: theirs, tables: twins, op: opo, openWide: large}}, hop)
 
 	cols := mNames(sp.Cols)
@@ -124,7 +166,7 @@ func c30Case(rt *rapid.T, env *mEnv, rec *vh.Recorder) {
 		return confs
 	}
 	conf1 := oneWay("merge b2 into b1", "m1", "b1", "b2", ours, theirs)
-	both := rapid.Bool().Draw(rt, "bothdirections")
+	both := wideRows || rapid.Bool().Draw(rt, "bothdirections")
 	if large {
 		both = both && rapid.Bool().Draw(rt, "bothdirections.large")
 	}
@@ -134,7 +176,7 @@ func c30Case(rt *rapid.T, env *mEnv, rec *vh.Recorder) {
 
 	sh := mShape(base.T, ours.T, theirs.T, conf1)
 	divergent := sh.cellwise + sh.modModConflict + sh.addAddConflict
-	nontrivial := ours.WideRows >= 250 && theirs.WideRows >= 250 && divergent > 0
+	nontrivial := (ours.WideRows >= 250 && theirs.WideRows >= 250 && divergent > 0) || targets > 0
 	show := func(ops []string) string {
 		var out []string
 		for _, o := range ops {
@@ -149,12 +191,27 @@ func c30Case(rt *rapid.T, env *mEnv, rec *vh.Recorder) {
 	if large {
 		baseDesc = fmt.Sprintf("%d formula rows", len(base.T.Rows))
 	}
+	if wideRows {
+		baseDesc = fmt.Sprintf("%d rows (even keys) with a %d-byte pad, %d leaf chunks, height %d, %d boundary targets", len(base.T.Rows), bnd.padLen, leaves, height, targets)
+	}
 	desc := fmt.Sprintf("%s; index(t_slow)=%s; base=%s; ours: %s; theirs: %s", sp.create("t_fast"), slow.Index, baseDesc, show(ours.Ops), show(theirs.Ops))
 	// the hash must see the full statements
 	full := fmt.Sprintf("%s|%s|%s", desc, strings.Join(ours.Ops, ";"), strings.Join(theirs.Ops, ";"))
 	cl := c29Classes(sp, sh, mode, len(base.T.Rows))
 	if large {
 		cl = append(cl, "large_base")
+	}
+	if wideRows {
+		cl = append(cl, "wide_rows", fmt.Sprintf("height=%d", height))
+		if targets > 0 {
+			cl = append(cl, "aimed_at_chunk_boundaries")
+		}
+		if collisions > 0 {
+			cl = append(cl, "collision_on_chunk_last_key")
+		}
+		if leaves == 0 {
+			cl = append(cl, "leaf_boundaries_unavailable")
+		}
 	}
 	if ours.WideRows >= 250 && theirs.WideRows >= 250 {
 		cl = append(cl, "both_sides_changed_chunks")
@@ -191,5 +248,23 @@ func c30Diff(a, b []string) string {
 		}
 		out = append(out, r)
 	}
-	return fmt.Sprintf("%d rows: %s", len(out), vsql.Show(out))
+	return fmt.Sprintf("%d rows: %s", len(out), c30Abbrev(vsql.Show(out)))
+}
+
+// c30Abbrev shortens runs of one repeated character (pad cells) for messages.
+func c30Abbrev(s string) string {
+	var b strings.Builder
+	for i := 0; i < len(s); {
+		j := i
+		for j < len(s) && s[j] == s[i] {
+			j++
+		}
+		if j-i > 12 {
+			fmt.Fprintf(&b, "%c{x%d}", s[i], j-i)
+		} else {
+			b.WriteString(s[i:j])
+		}
+		i = j
+	}
+	return b.String()
 }
